@@ -130,15 +130,15 @@ def _jobs_c05(tier):
     q = tier == "quick"
     jobs = []
     for s in ["RPRS", "RPRFS", "FLEET"]:
-        jobs.append(m1(s, "prio_get", 3 if q else 4, 2 if q else 3, ("C05",), 12 if q else 60))
+        jobs.append(m1(s, "prio_get", (2 if s == "RPRFS" else 3) if q else 4, (2 if s == "RPRS" else 1) if q else 3, ("C05",), 14 if q else 60))
         jobs.append(m1(s, "prio_put", 3 if q else 4, 2 if q else 3, ("C05",), 12 if q else 60))
     # timed priority stores also with calls made at the very start of an instant (before that instant's own events)
     jobs.append(m1("SBELT_PRIO", "prio_put", 3, 2, ("C05",), 25 if q else 60, EARLY=True))
-    jobs.append(m1("SBELT_PRIO", "prio_get", 3, 2, ("C05",), 10 if q else 60, EARLY=True))
-    jobs.append(m1("RPRFS_TD", "prio_get", 3, 2, ("C05",), 12 if q else 60, EARLY=True))
-    jobs.append(m1("FLEET", "prio_get", 2, 2, ("C05",), 12 if q else 60, EARLY=True, name="M1/FLEET/prio_get/early"))
+    jobs.append(m1("SBELT_PRIO", "prio_get", 3, 1 if q else 2, ("C05",), 14 if q else 60, EARLY=True))
+    jobs.append(m1("RPRFS_TD", "prio_get", 3, 1 if q else 2, ("C05",), 14 if q else 60, EARLY=True))
+    jobs.append(m1("FLEET", "prio_get", 2, 1 if q else 2, ("C05",), 14 if q else 60, EARLY=True, name="M1/FLEET/prio_get/early"))
     for s in ["RRS", "BUF_FIFO", "SBELT_ACC", "CBELT_ACC"]:
-        jobs.append(m1(s, "prio_get", 3, 2 if q else 3, ("C05",), 10 if q else 60))
+        jobs.append(m1(s, "prio_get", 3, 1 if q else 3, ("C05",), 12 if q else 60))
         if s in ("RRS", "BUF_FIFO"):
             jobs.append(m1(s, "prio_put", 3, 2 if q else 3, ("C05",), 10 if q else 60))
     jobs.append({"name": "M0/PriorityReqStore", "spec": ("vfy.m0", "prs_scenario", dict(n=3 if q else 4)), "budget_s": 15 if q else 60,
